@@ -5,6 +5,7 @@ import (
 	"go/token"
 	"go/types"
 	"math"
+	"net/url"
 	"os"
 	"reflect"
 	"strconv"
@@ -420,6 +421,10 @@ func registerVX() {
 		m.gin(ptrArg(args[0])).params[mustStr(args[1])] = args[2]
 		return nil
 	}
+	intrinsics[p+"HTTPSetBody"] = func(m *Machine, fr *frame, args []Value) Value {
+		m.gin(ptrArg(args[0])).params["reqbody"] = args[1]
+		return nil
+	}
 	intrinsics[p+"Notifications"] = func(m *Machine, fr *frame, args []Value) Value {
 		n, _ := m.env["notifications"].([]Value)
 		return m.i64(int64(len(n)))
@@ -691,6 +696,30 @@ func registerStd() {
 		out.E = append(out.E, m.mkStr(b[start:]))
 		return Slice{A: out, Len: len(out.E), Cap: len(out.E)}
 	}
+	unesc := func(host func(string) (string, error), name string) NativeFn {
+		return func(m *Machine, fr *frame, args []Value) Value {
+			if s, ok := strArg(args[0]); ok {
+				r, err := host(s)
+				if err != nil {
+					return Tuple{"", m.newError(err.Error())}
+				}
+				return Tuple{r, Iface{}}
+			}
+			// symbolic bytes: without a '%' (and, for query strings, a '+') the
+			// text is returned as it is; escapes in symbolic text are not modelled
+			b := m.strBytes(fr, args[0])
+			special := m.C.False
+			for _, t := range b {
+				special = m.C.Or(special, m.C.Or(m.C.Eq(t, m.b8('%')), m.C.Eq(t, m.b8('+'))))
+			}
+			if m.Branch(special) {
+				m.unsupported("%s of symbolic text containing an escape", name)
+			}
+			return Tuple{args[0], Iface{}}
+		}
+	}
+	I["net/url.PathUnescape"] = unesc(url.PathUnescape, "url.PathUnescape")
+	I["net/url.QueryUnescape"] = unesc(url.QueryUnescape, "url.QueryUnescape")
 	I["strings.Fields"] = func(m *Machine, fr *frame, args []Value) Value {
 		s, ok := strArg(args[0])
 		if !ok {
